@@ -43,6 +43,13 @@ def _pool():
         (1, -H, H, 1, 1, 1), (3, 1, -1, 2, -2, 3), (-H, 1, 1, H, 0, -1), (1, 3, 0, -2, 1, 0),
     ]:
         ms.append(tuple(Fr(x) for x in (a, b, c, d, e, f)))
+    # every sign pattern of the linear part (each rectangle corner is the unique extreme point for some of them)
+    for sa in (1, -1):
+        for sb in (1, -1):
+            for sc in (1, -1):
+                for sd in (1, -1):
+                    ms.append((Fr(sa), sb * H, sc * H, Fr(sd) * 2, Fr(0), Fr(0)))
+                    ms.append((sa * H, Fr(sb) * 3, Fr(sc), sd * H, Fr(1), -H))
     # singular
     for a, b, c, d, e, f in [
         (0, 0, 0, 0, 0, 0), (1, 0, 0, 0, 0, 0), (0, 0, 0, 1, 1, 1), (1, 1, 1, 1, 0, 0), (2, -1, -2, 1, H, 0),
@@ -61,7 +68,7 @@ META = {
         "algebra: every ordered pair (quick) / pair and triple (thorough: all; quick: triples over the first-index shard "
         "x a 14-matrix sub-pool) of a pool of structured exact-rational matrices (identity, translations, scalings/"
         "reflections, 90-degree rotations, shears, singular) x 9 points x 5 rectangles, compared with an independent "
-        "3x3 reference and the stated laws; index: BFS over add/remove/re-add histories of a 6-box pool on the real "
+        "3x3 reference and the stated laws; index: BFS over add/remove/re-add histories of an 8-box pool (incl. a zero-width rule and a point on grid lines) on the real "
         "Plane for 2 bounds x 3 grid sizes, canonical state = (_seq ids, _objs ids, sorted grid), in every state 81 "
         "query boxes compared with brute force plus iter/len/in against a list model. non-trivial = algebra case with "
         "a non-identity, non-zero factor, or index state with at least one live object; states/transitions = BFS "
@@ -71,7 +78,7 @@ META = {
               "thorough": "all pairs and all triples; index depth 7"},
     "assumptions": [
         "Plane is specified over its constructor bounds: objects or queries that do not properly overlap the bounds are not judged for find()",
-        "degenerate (zero-area) boxes and adding an object that is already live are not generated (statement silent)",
+        "zero-width/zero-height boxes are judged with the strict-inequality reading of 'properly overlap' (o.x0 < q.x1 and q.x0 < o.x1, same for y); adding an object that is already live is not generated (statement silent)",
         "matrix entries outside the pool, and float round-off, are not explored (components are exact Fractions as the statement says)",
     ],
 }
@@ -173,10 +180,12 @@ BOXES = [
     ("D", 3.0, 3.0, 6.0, 6.0),  # across the first bounds' edge
     ("E", 5.0, 5.0, 7.0, 7.0),  # outside the first bounds, inside the second
     ("F", -0.5, 1.0, 0.5, 3.0),  # straddles coordinate 0 with fractional ends
+    ("V", 2.0, 0.5, 2.0, 2.5),  # zero-width rule lying exactly on a grid line of every grid size... (2 = 1*2 = 2*1)
+    ("Z", 6.0, 1.0, 6.0, 1.0),  # a point on a grid line (6 is a multiple of 1, 2 and 3)
 ]
 BOUNDS = [(-4.0, -4.0, 4.0, 4.0), (0.0, 0.0, 8.0, 8.0)]
 GRIDS = [1, 2, 3]
-INTERVALS = [(-5.0, -3.5), (-3.0, -0.5), (-0.7, 0.0), (-0.7, 2.0), (-0.5, 0.5), (0.5, 1.5), (1.5, 3.0), (2.0, 8.5), (6.5, 9.0)]
+INTERVALS = [(-5.0, -3.5), (-3.0, -0.5), (-0.7, 0.0), (-0.7, 2.0), (-0.5, 0.5), (0.5, 1.5), (1.5, 3.0), (2.0, 8.5), (5.5, 9.0)]
 QUERIES = [(ax[0], ay[0], ax[1], ay[1]) for ax in INTERVALS for ay in INTERVALS]
 
 
@@ -268,7 +277,7 @@ def run_index(bounds, grid, first, depth, st):
     return r
 
 
-SUB = [0, 2, 5, 8, 10, 15, 18, 21, 24, 27, 30, 34, 38, 41]
+SUB = [0, 2, 5, 8, 10, 15, 18, 21, 24, 27, 30, 34, 38, 41, 44, 51, 58, 65]
 
 
 def shards(tier):
